@@ -125,7 +125,7 @@ pub fn fz_receiver(data: &[u8], info: &mut FuzzInfo) -> Option<FuzzFailure> {
     while !u.is_empty() && ops.len() < 48 {
         let k: u8 = u.arbitrary().unwrap_or(0);
         let p: u16 = u.arbitrary().unwrap_or(0);
-        let kind = match k % 9 {
+        let kind = match k % 10 {
             0 | 1 => c05::Kind::Next,
             2 => c05::Kind::Replay(p),
             3 => c05::Kind::Future(p),
@@ -133,6 +133,7 @@ pub fn fz_receiver(data: &[u8], info: &mut FuzzInfo) -> Option<FuzzFailure> {
             5 => c05::Kind::TamperTag(p as u8),
             6 => c05::Kind::WrongAad,
             7 => c05::Kind::Short(p as u8),
+            8 => c05::Kind::Aliased(p as u8),
             _ => c05::Kind::Garbage(p, p as u64),
         };
         ops.push(c05::Delivery { kind, in_place: k & 0x80 != 0 });
@@ -186,7 +187,12 @@ pub fn fz_session(data: &[u8], info: &mut FuzzInfo) -> Option<FuzzFailure> {
         _ => c14::Fault::SmallOrderEnc { idx: s2 >> 3 },
     };
     let m = msgs.first().cloned().unwrap_or(Msg { pt: Bytes(b"p".to_vec()), aad: Bytes(vec![]) });
-    let c = c14::Case { sess, pt: m.pt, aad: m.aad, fault, spy: s2 & 0x80 != 0 };
+    let mut faults = vec![fault];
+    if s2 & 0x40 != 0 {
+        faults.push(c14::Fault::Short { keep: s0 });
+    }
+    faults.retain(|f| *f != c14::Fault::None);
+    let c = c14::Case { sess, pt: m.pt, aad: m.aad, faults, spy: s2 & 0x80 != 0 };
     run(&c14::P, &c, info)
 }
 
